@@ -49,7 +49,7 @@ def rnd_history(rnd, nops):
         elif k < 0.43:
             prog.append({"op": "remove", "a": {"m": s(), "i": rnd.randint(1, 3)}})
         elif k < 0.53:
-            prog.append({"op": "clone", "a": {"s": s()}})
+            prog.append({"op": "clone", "a": {"s": s(), "via": rnd.randint(0, 2)}})   # via: Clone / GuestAddressSpace::memory()
         elif k < 0.60:
             prog.append({"op": "make_atomic", "a": {"m": s()}})
         elif k < 0.68:
@@ -77,7 +77,7 @@ def dynamic(ctx):
     prog = []
     for n, t in enumerate(tests):
         # (a raw mapping is described to the builder in one of three ways, rotating over the tests)
-        prog += [{"op": s["op"], "a": dict(s["a"], var=(n + i) % 3) if s["op"] == "create" else s["a"]} for i, s in enumerate(t["steps"])]
+        prog += [{"op": s["op"], "a": dict(s["a"], var=(n + i) % 3) if s["op"] == "create" else dict(s["a"], via=(n + i) % 3) if s["op"] == "clone" else s["a"]} for i, s in enumerate(t["steps"])]
         # quiescence: drop every handle (in one of two orders) - everything owned must be gone, raw still mapped
         nsl = len(t["exp"][-1]["slots"])
         order = list(range(1, nsl + 1))
